@@ -7,6 +7,8 @@ point parity x high/low s x z >= N occur many times.  I2: complete product of th
 alphabets at full size.  Oracle: independent model (mc.model.ecdsa): model nonce (HMAC written
 out), model signature, model verification equation, model d*G.
 """
+import hashlib
+
 from ..core import R, rng
 from ..model import ecdsa
 from . import secplib as L
@@ -45,6 +47,11 @@ def _check(S, m, d, h):
     o2 = L.call(S.ecdsa_raw_sign, h, priv)
     if o2 != o:
         return cls, ("nondeterministic", o, o2)
+    # history: a refused recovery on this hash first (the previous successful recovery was for
+    # another hash), then the honest one
+    pre = L.call(S.ecdsa_raw_recover, h, (v, r, 0))
+    if pre != ("raise", "ValueError"):
+        return cls, ("recover-accepts-s=0", "ValueError", pre)
     rec = L.call(S.ecdsa_raw_recover, h, sig)
     pub = L.call(S.privtopub, priv)
     if rec[0] != "ok" or L.to_model(rec[1]) != Q:
@@ -67,7 +74,7 @@ def _hashes_tiny(m, env):
     rg = rng(env, "tiny-hash-%d" % m.p)
     hs = [z.to_bytes(32, "big") for z in range(0, n + 3)]
     hs += [bytes(rg.getrandbits(8) for _ in range(32)) for _ in range(8)]
-    hs += [b"\xff" * 32, b"", b"\x01", bytes(range(33)), bytes(range(64))]
+    hs += [b"\xff" * 32, b"", b"\x01", bytes(range(33)), bytes(range(64)), b"0123456789abcdef" * 4, b"ff" * 16]
     return hs
 
 
@@ -106,6 +113,8 @@ def _full_domain(m, env, thorough):
           (n + 1).to_bytes(32, "big"), m.p.to_bytes(32, "big"), b"\x00" * 31 + b"\x01"]
     hs += [bytes(rg.getrandbits(8) for _ in range(32)) for _ in range(4)]
     hs += [b"", b"\x07", bytes(range(31)), bytes(range(33)), bytes(range(64))]
+    # digests that are themselves ASCII text (hex digits / decimal digits), 32 and 64 characters
+    hs += [b"0123456789abcdef" * 4, hashlib.sha256(b"x").hexdigest().encode(), b"00000000000000000000000000000001", b"12345678" * 4]
     if thorough:
         ds += [2**k for k in range(1, 255, 6)] + [rg.randrange(1, n) for _ in range(20)]
         hs += [bytes(rg.getrandbits(8) for _ in range(32)) for _ in range(24)]
